@@ -292,6 +292,9 @@ type SimSub struct {
 	// TimeoutErr: failing deliveries return an error shaped like a network
 	// timeout (Timeout() == true).
 	TimeoutErr bool
+	// EmptyGroupErr: failing deliveries return ggql.Errors{} - not nil, but
+	// without members.
+	EmptyGroupErr bool
 	// ByValue: the subscription resolver hands the subscriber to the library by
 	// value, wrapped in a struct that can neither be compared nor hashed.
 	ByValue bool
@@ -374,6 +377,11 @@ func (s *SimSub) Send(value interface{}) error {
 	if fail {
 		if s.TimeoutErr {
 			return ErrSendTimeout
+		}
+		if s.EmptyGroupErr {
+			// a non-nil error that is an empty group (a subscriber that collects
+			// what went wrong on its connection and returns the collection)
+			return ggql.Errors{}
 		}
 		return ErrSend
 	}
